@@ -276,7 +276,15 @@ pub fn check(inst: &Inst, obs: &Obs, pred: &Pred) {
     let lc = rf.label_class(inst.v);
     let pc = if inst.priors.is_some() { "priors=user" } else { "priors=empirical" };
     let ac = if inst.alpha == 1.0 { "alpha=1" } else { "alpha!=1" };
-    let bc = if inst.bin.is_some() { "binarize=threshold" } else { "binarize=none" };
+    // a training entry that already looks binary (exactly 0.0 or 1.0) and that the documented rule
+    // `x > threshold -> 1, else 0` nevertheless changes (1 -> 0 when threshold >= 1, 0 -> 1 when threshold < 0)
+    let one_to_zero = inst.v == V::B && inst.bin.is_some() && inst.x.iter().any(|r| r.iter().any(|e| *e == 1.0 && binarise(*e, inst.bin) == 0.0));
+    let zero_to_one = inst.v == V::B && inst.bin.is_some() && inst.x.iter().any(|r| r.iter().any(|e| *e == 0.0 && binarise(*e, inst.bin) == 1.0));
+    let bc = match (inst.bin.is_some(), one_to_zero || zero_to_one) {
+        (true, true) => "binarize=threshold-changes-exact-0/1-entries",
+        (true, false) => "binarize=threshold",
+        _ => "binarize=none",
+    };
     let k = rf.labels.len();
     let mut tol = Tol { worst: 0.0 };
 
@@ -303,6 +311,23 @@ pub fn check(inst: &Inst, obs: &Obs, pred: &Pred) {
         mc::count("bernoulli_binarized");
         if inst.x.iter().any(|r| r.iter().any(|e| *e == t)) {
             mc::count("bernoulli_value_equals_threshold");
+        }
+        if one_to_zero {
+            mc::count("bernoulli_exact_one_entry_binarised_to_zero");
+        }
+        if zero_to_one {
+            mc::count("bernoulli_exact_zero_entry_binarised_to_one");
+        }
+        // one training row holding a binary-looking entry that the threshold keeps and one that it changes
+        if inst.x.iter().any(|r| {
+            let looks = |e: &&f64| **e == 0.0 || **e == 1.0;
+            r.iter().filter(looks).any(|e| binarise(*e, inst.bin) == *e) && r.iter().filter(looks).any(|e| binarise(*e, inst.bin) != *e)
+        }) {
+            mc::count("bernoulli_mixed_row_keeps_and_changes_binary_looking_entries");
+        }
+        let b0 = binarise(inst.x[0][0], inst.bin);
+        if inst.x.iter().all(|r| r.iter().all(|e| binarise(*e, inst.bin) == b0)) {
+            mc::count("bernoulli_all_training_entries_binarise_alike");
         }
     }
 
